@@ -29,6 +29,8 @@ pub enum Op13 {
     SetPos(u64),
     Len,
     Flush,
+    /// readers: continue on a clone of the object (it must be in the same state)
+    Clone,
 }
 
 #[derive(Clone, Debug, Serialize, Deserialize)]
@@ -52,9 +54,18 @@ trait MemDev<W> {
     fn is_empty(&self) -> Option<bool> {
         None
     }
+    /// Replace the object by a clone of itself (types that are Clone); false if not cloneable.
+    fn replace_with_clone(&mut self) -> bool {
+        false
+    }
 }
 
-impl<W: SimWord, B: AsRef<[W]>> MemDev<W> for MemWordReader<W, B, true> {
+impl<W: SimWord, B: AsRef<[W]> + Clone> MemDev<W> for MemWordReader<W, B, true> {
+    fn replace_with_clone(&mut self) -> bool {
+        let c = self.clone();
+        *self = c;
+        true
+    }
     fn read(&mut self) -> Option<Result<W, ()>> {
         Some(self.read_word().map_err(|_| ()))
     }
@@ -74,7 +85,12 @@ impl<W: SimWord, B: AsRef<[W]>> MemDev<W> for MemWordReader<W, B, true> {
         None
     }
 }
-impl<W: SimWord, B: AsRef<[W]>> MemDev<W> for MemWordReader<W, B, false> {
+impl<W: SimWord, B: AsRef<[W]> + Clone> MemDev<W> for MemWordReader<W, B, false> {
+    fn replace_with_clone(&mut self) -> bool {
+        let c = self.clone();
+        *self = c;
+        true
+    }
     fn read(&mut self) -> Option<Result<W, ()>> {
         Some(self.read_word().map_err(|_| ()))
     }
@@ -154,6 +170,7 @@ fn opk(op: &Op13) -> u64 {
         Op13::SetPos(_) => 3,
         Op13::Len => 4,
         Op13::Flush => 5,
+        Op13::Clone => 6,
     }
 }
 
@@ -251,6 +268,22 @@ fn run13<W: SimWord + PartialEq, D: MemDev<W>>(s: &S13, dev: &mut D, m: &mut Mod
                         "C13.write",
                         format!("op #{} write_word returned {:?}, model says {:?}", i, got, exp),
                     );
+                }
+            }
+            Op13::Clone => {
+                match guard(|| dev.replace_with_clone()) {
+                    Ok(true) => {
+                        ctx.probe("c13.continued_on_a_clone");
+                        let now = dev.pos();
+                        if now != Ok(m.cur) {
+                            return ctx.fail(
+                                "C13.pos",
+                                format!("op #{} the clone of the reader reports position {:?}, the original was at {}", i, now, m.cur),
+                            );
+                        }
+                    }
+                    Ok(false) => {}
+                    Err(p) => return ctx.fail("C13.panic", format!("clone panicked: {}", p)),
                 }
             }
             Op13::Flush => {
@@ -464,13 +497,17 @@ impl Family for C13 {
                     };
                     Op13::SetPos(p)
                 }
-                _ => {
-                    if rng.chance(1, 2) {
-                        Op13::Len
-                    } else {
-                        Op13::Flush
+                _ => match rng.below(3) {
+                    0 => Op13::Len,
+                    1 => Op13::Flush,
+                    _ => {
+                        if matches!(kind, MemKind::ReaderInf | MemKind::ReaderStrict) {
+                            Op13::Clone
+                        } else {
+                            Op13::Flush
+                        }
                     }
-                }
+                },
             };
             if let (Op13::Write(_), MemKind::Vec) = (&op, kind) {
                 len_est += 1;
@@ -543,6 +580,7 @@ impl Family for C13 {
 
     fn required_probes(_t: Tier) -> Vec<&'static str> {
         vec![
+            "c13.continued_on_a_clone",
             "c13.read_beyond_end_zero",
             "c13.read_beyond_end_err",
             "c13.write_beyond_end_err",
